@@ -1,5 +1,5 @@
 (* Properties/C16.v — Events are emitted exactly once per occurrence and tell a consistent story. *)
-From FS Require Import Model.Exec Proofs.ExecProofs Proofs.ExecStats Proofs.BreakerProofs Corr.C16.
+From FS Require Import Model.Exec Proofs.ExecProofs Proofs.ExecStats Proofs.BreakerProofs Proofs.ExecRetryEvents Proofs.ExecCheckerProofs Corr.C16.
 
 (* executor: one success-or-failure event matching SuccessAll, then one done event, both carrying the returned result *)
 Theorem C16_completion_events : forall fuel stack w,
@@ -19,6 +19,20 @@ Theorem C16_retry_events_counted_once : forall fuel stack now ext key b l k c sc
   trace_ok (w_trace (drain (snd (execute fuel stack (fresh_world now ext key b l k c script))))).
 Proof. exact execution_statistics_exact. Qed.
 Print Assumptions C16_retry_events_counted_once.
+
+(* per retry policy (stack position), in the complete log of any execution through any stack: every OnRetry is preceded by
+   its own OnRetryScheduled -- a decided retry may be cancelled before it starts (an unpaired OnRetryScheduled), but no
+   retry starts without having been decided.  [st pos] runs the pairing automaton of position pos over the log. *)
+Theorem C16_on_retry_follows_its_on_retry_scheduled : forall fuel stack now ext key b l k c script pos,
+  st pos (w_trace (drain (snd (execute fuel stack (fresh_world now ext key b l k c script))))) <> None.
+Proof. intros. apply retry_events_pair_up. Qed.
+Print Assumptions C16_on_retry_follows_its_on_retry_scheduled.
+
+(* used by the correspondence: the executable form of the pairing accepts every model log *)
+Theorem C16_pairing_checker_accepts_model : forall fuel stack now ext key b l k c script pos,
+  retry_pairs_ok pos false (rev (w_trace (drain (snd (execute fuel stack (fresh_world now ext key b l k c script)))))) = true.
+Proof. intros. apply c16_pairing_checker_accepts_model. Qed.
+Print Assumptions C16_pairing_checker_accepts_model.
 
 (* fallback / cache events fire exactly in their situation (any inner layer) *)
 Theorem C16_fallback_event_iff_applied : forall pos cfg (inner : layer) c w,
